@@ -164,6 +164,8 @@ class Builder(object):
     def bound(self, e, ub, target=None, how="constraint"):
         """e <= ub written in a random orientation (all denote the same half-space)."""
         target = target or self.P
+        if how == "initial":
+            self.info.setdefault("init", []).append((e, float(ub)))
         o = self.rng.randrange(4)
         if o == 0:
             return self.cons(e, "<=", float(ub), target, how)
@@ -623,6 +625,21 @@ def t_linear(b, n, rng):
         A = b.func(cls, L=L, transpose=True)
     x = x0
     ys = []
+    if cls == "LinearOperator" and rng.random() < 0.3:
+        # the operator is only ever applied through its adjoint (directly or through a multiple of it):
+        # every condition of the class then comes from the samples of A.T
+        AT = A + "T"
+        if rng.random() < 0.5:
+            AT = b.fexpr(["div", AT, 2.0]) if rng.random() < 0.5 else b.fexpr(["mul", 0.5, AT])
+        v = b.gradient(AT, x0)
+        if n >= 2:
+            u1 = b.point()
+            b.gradient(AT, u1)
+            b.bound(b.sq(u1), 1.0)
+        b.bound(b.sq(x0), 1.0, how="initial")
+        b.metric(b.sq(v))
+        b.info.update(template="linear", cls=cls, f=A, x0=x0, xn=x, main_f=A, adjoint_only=True)
+        return
     for k in range(max(n, 1)):
         y = b.gradient(A, x)
         ys.append(y)
@@ -821,8 +838,11 @@ def decorate(b, rng, kinds):
                 b.emit(op="attach", c=c, target=rng.choice([info["main_f"], P]))
         elif kind == "composite_items" and pts and info.get("F"):
             # a constraint and an LMI attached to a *composite* function
-            b.bound(b.sq(rng.choice(pts)), 2.5e3, target=info["F"])
-            if info.get("metrics") and rng.random() < 0.6:
+            mode = rng.choice(["cons", "lmi", "both", "both"]) if info.get("metrics") else "cons"
+            if mode in ("cons", "both"):
+                b.bound(b.sq(rng.choice(pts)), 2.5e3, target=info["F"])
+            if mode in ("lmi", "both"):
+                # (alone, the LMI is the only thing the composite function carries)
                 s_ = b.newexpr()
                 b.psd([[info["metrics"][0], s_], [s_, 1.0]], target=info["F"])
         elif kind == "zero_coef" and pts and info.get("metrics"):
@@ -860,6 +880,27 @@ def decorate(b, rng, kinds):
         elif kind == "part_cons" and pts:
             Bp = b.parts[0] if b.parts else b.partition(rng.choice([2, 3]))
             b.bound(b.sq(rng.choice(pts)), 4e3, target=Bp)
+        elif kind == "lmi_affine" and info.get("init"):
+            # the initial condition e <= ub tightened through an LMI whose entry mixes a constant with variables:
+            # [[c*ub - e]] >> 0 (or a Schur-complement form of it); it is binding, unlike the other LMI decorations
+            e, ub = rng.choice(info["init"])
+            c = rng.choice([0.5, 0.25, 0.75])
+            a = b.elin([(e, -1.0)], const=c * ub)
+            form = rng.randrange(4)
+            targets = [P] + ([info["main_f"]] if info.get("main_f") else []) + ([info["F"]] if info.get("F") else [])
+            target = rng.choice(targets)
+            if form == 0:
+                b.psd([[a]], target=target)
+            elif form == 1:
+                b.psd([[a, 0.0], [0.0, 1.0]], target=target)
+            elif form == 2:
+                s_ = b.newexpr()
+                b.psd([[a, s_], [s_, 1.0]], target=target)
+            else:
+                # constant on the off-diagonal entries as well: [[2c*ub - e, sqrt(c*ub)], [sqrt(c*ub), 1]]
+                r = r2((c * ub) ** 0.5)
+                a2 = b.elin([(e, -1.0)], const=c * ub + r * r)
+                b.psd([[a2, r], [r, 1.0]], target=target)
         elif kind == "orphan_psd" and info.get("metrics"):
             # a PSDMatrix object that is created but never added to the model
             b.psd([[info["metrics"][0], 0.0], [0.0, 1.0]], target=None)
@@ -868,7 +909,7 @@ def decorate(b, rng, kinds):
 
 DECORATIONS = ["extra_metric", "redundant_cons", "eq_cons", "func_cons", "lmi_sym", "lmi_asym", "lmi_func", "lmi3",
                "unused_query", "useless_partition", "orphan_psd", "part_cons", "zero_coef", "mirror", "leaf_metric",
-               "leaf_sides", "composite_items", "double_reg", "idle_operator"]
+               "leaf_sides", "composite_items", "double_reg", "idle_operator", "lmi_affine"]
 
 
 def build_model(rng, prefix="", template=None, n=None, decorations=None, names=None, weights=None,
